@@ -528,6 +528,9 @@ class TdmsChannel(object):
         """
         if self._raw_data is not None:
             return iter(self.data)
+        elif self.data_type is None:
+            # A channel that was never given a data type cannot have any data
+            return iter(())
         else:
             return self._read_data_values()
 
